@@ -272,7 +272,9 @@ def besthand_check(prop, tier, seed, work, replay):
     simfile = os.path.join(dr.d, "sim.scripts")
     nsim = ec.sim_scripts(work, 60 if q else 600, seed, simfile, 5000000)
     dr.replay("sim", simfile, finish=True, seed=seed)
-    res = vlib.validate(work, sorted(dr.files), "HoldemTrace.tla", [prop], nchunks=max(4, vlib.NCPU // 2), heap="3g", timeout=3600)
+    # (thorough: 2.8 M lines whose cost is the reference evaluation of 21 to 126 selections per published hand - CPU bound, one chunk per core)
+    res = vlib.validate(work, sorted(dr.files), "HoldemTrace.tla", [prop], nchunks=max(4, vlib.NCPU // 2) if q else 2 * vlib.NCPU, heap="3g", timeout=7200,
+                        jobs=None if q else max(4, vlib.NCPU - 2))
     log("[val] %d lines, %d failed clauses, %d drift, %.0fs" % (res["lines"], len(res["viol"]), len(res["drift"]), res["tlc_s"]))
     rc, nviol, known_hit = verdict.judge(prop, tier, seed, res["viol"], ec.signature,
                                          lambda v, line, rs: ec.reproduce(prop, work, binary, v, dr.files[v["src"]], line, rs))
@@ -542,8 +544,8 @@ def seat_check(prop, tier, seed, work, replay):
                         assumptions=["projection drv_seat.go", "every Join uses a fresh player id (the manager does not know player identity)",
                                      "C18 schedules: the gate hook decides check/commit interleavings of Join; the Go memory model is not explored"])
     need = {"C08": ["C08.positions.n2", "C08.positions.n3", "C08.lateJoiner", "C08.lateJoiner.dealtIn", "C08.positions.viaTable"],
-            "C17": ["C17.button", "C17.insufficient"],
-            "C18": ["C18.joinAny", "C18.joinAny.full", "conc.episodes", "conc.blockedOnMutex", "conc.sameSeat", "op.MT.Apply.ok"]}[prop]
+            "C17": ["C17.button", "C17.insufficient", "op.Reset.ok"],
+            "C18": ["C18.joinAny", "C18.joinAny.full", "conc.episodes", "conc.blockedOnMutex", "conc.sameSeat", "op.MT.Apply.ok", "op.Reset.ok"]}[prop]
     missing = [a for a in need if cnt.get(a, 0) == 0]
     if rc == 0 and missing:
         print("INCONCLUSIVE property=%s never exercised: %s" % (prop, ",".join(missing)))
@@ -702,7 +704,7 @@ def reg_check(prop, tier, seed, work, replay):
     vlib.write_evidence(prop, tier, seed, coverage, time.time() - t0, nviol,
                         assumptions=["the environment follows the regulator's instructions (tables release exactly the number asked for, seat the players handed out)",
                                      "the waiting queue is read through the verif snapshot hook", "projection drv_reg.go"])
-    need = {"C09": ["C09.syncHandsOut", "C09.syncReleases", "C09.unknownTable", "C09.afterDeadline", "C20.break"],
+    need = {"C09": ["C09.syncHandsOut", "C09.syncReleases", "C09.unknownTable", "C09.brokenTableNamed", "C09.unknownTableWithEliminations", "C09.afterDeadline", "C20.break"],
             "C19": ["C19.request", "C19.initialAllocation", "C19.assign"],
             "C20": ["C20.break", "C20.settleEpisode"]}[prop]
     missing = [a for a in need if cnt.get(a, 0) == 0]
